@@ -14,10 +14,11 @@ item kinds (``inputs`` refer to indices of EARLIER items):
   {"kind": "dist",  "var": v, "inputs": [i], "per_obs": bool}   lsl.Dist attached to var v
 optional per item: "named": bool (default True), "seed": bool (needs_seed), "group": str
 
-Values are *interned structures*: every function application returns a small integer
-that identifies (node, argument values) injectively, so a stale value can never equal
-a fresh one by accident. Distribution log-probs are id * BASE**j so that their sums
-(_model_log_prob etc.) identify every component.
+Values are *content-based terms*: every function application returns the nested tuple
+(node, argument values), which identifies its provenance injectively, so a stale value
+can never equal a fresh one by accident. Distribution log-probs are ``Sym`` objects
+(symbolic multiset sums), so _model_log_prob etc. identify every component. Being
+content-based, values stay comparable across deepcopy / pickling of a model.
 """
 
 from __future__ import annotations
@@ -25,27 +26,47 @@ from __future__ import annotations
 import itertools
 from typing import Any
 
-BASE = 10**6
+class Sym:
+    """
+    A symbolic sum of log-prob terms: content-based (picklable, deep-copyable, equal
+    across model copies), supports ``0 + Sym + Sym`` as used by liesel's _reduced_sum.
+    """
 
+    __slots__ = ("terms",)
 
-class Interner:
-    def __init__(self):
-        self.ids: dict[Any, int] = {}
-        self.rev: dict[int, Any] = {}
+    def __init__(self, terms=()):
+        self.terms = tuple(sorted(terms, key=repr))
 
-    def __call__(self, key) -> int:
-        i = self.ids.get(key)
-        if i is None:
-            i = 100 + len(self.ids)
-            self.ids[key] = i
-            self.rev[i] = key
-        return i
+    def __add__(self, other):
+        if isinstance(other, Sym):
+            return Sym(self.terms + other.terms)
+        if other == 0:
+            return self
+        return NotImplemented
 
-    def decode(self, i, depth=6):
-        k = self.rev.get(i)
-        if k is None or depth == 0:
-            return i
-        return tuple(self.decode(x, depth - 1) if isinstance(x, int) and x >= 100 else x for x in k)
+    __radd__ = __add__
+
+    def __eq__(self, other):
+        if isinstance(other, Sym):
+            return self.terms == other.terms
+        if not self.terms:
+            return other == 0
+        return False
+
+    def __ne__(self, other):
+        return not self.__eq__(other)
+
+    def __hash__(self):
+        return hash(self.terms)
+
+    def __repr__(self):
+        return "Sym" + repr(self.terms)
+
+    def __getstate__(self):
+        return self.terms
+
+    def __setstate__(self, st):
+        self.terms = st
 
 
 def seed_tuple(seed) -> tuple:
@@ -63,21 +84,21 @@ class StubDist:
 
     def log_prob(self, at):
         self.prog.calls[("d", self.j)] = self.prog.calls.get(("d", self.j), 0) + 1
+        self.prog.order.append(("d", self.j))
         key = ("d", self.j, self.params, at) if self.seed is None else ("d", self.j, self.params, at, self.seed)
-        return self.prog.intern(key) * BASE ** (self.j + 1)
+        return Sym((key,))
 
 
 class Built:
     """A real liesel model built from a program + handles for harness and reference."""
 
-    def __init__(self, program: dict, build: bool = True, copy: bool = False, intern=None):
+    def __init__(self, program: dict, build: bool = True, copy: bool = False):
         import liesel.model as lsl
 
-        self.lsl = lsl
         self.program = program
         self.items = program["items"]
-        self.intern = intern if intern is not None else Interner()
         self.calls: dict[Any, int] = {}
+        self.order: list[Any] = []  # order of function evaluations
         self.objs: list[Any] = []  # per item: Node or Var
         self.out: list[Any] = []  # per item: the node other items see as input
         self.cache_node: list[Any] = []  # per item: the node whose function is counted
@@ -136,6 +157,15 @@ class Built:
             if copy:
                 self.rebind(self.model)
             self.calls.clear()
+            self.order.clear()
+
+    @property
+    def lsl(self):
+        # not stored on the instance: the instance is reachable from the node functions
+        # and would drag the module into every pickle of a model
+        import liesel.model as lsl
+
+        return lsl
 
     # ------------------------------------------------------------------
     def rebind(self, model):
@@ -156,16 +186,16 @@ class Built:
                 new_cache.append(no if self.cache_node[i] is not None else None)
         self.objs, self.out, self.cache_node = new_objs, new_out, new_cache
 
-    def val(self, a: int) -> int:
-        return self.intern(("in", a))
+    def val(self, a: int):
+        return ("in", a)
 
     def _fn(self, i: int):
         prog = self
 
         def f(*args, seed=None):
             prog.calls[("c", i)] = prog.calls.get(("c", i), 0) + 1
-            key = ("c", i, args) if seed is None else ("c", i, args, seed_tuple(seed))
-            return prog.intern(key)
+            prog.order.append(("c", i))
+            return ("c", i, args) if seed is None else ("c", i, args, seed_tuple(seed))
 
         f.__name__ = f"f{i}"
         return f
@@ -190,13 +220,12 @@ class Built:
                 vals.append(inputs[i])
             elif k in ("calc", "tcalc", "wvar"):
                 args = tuple(vals[j] for j in it["inputs"])
-                key = ("c", i, args) if i not in seeds else ("c", i, args, seeds[i])
-                vals.append(self.intern(key))
+                vals.append(("c", i, args) if i not in seeds else ("c", i, args, seeds[i]))
             elif k == "dist":
                 params = tuple(vals[j] for j in it["inputs"])
                 at = vals[it["var"]]
                 key = ("d", i, params, at) if i not in seeds else ("d", i, params, at, seeds[i])
-                vals.append(self.intern(key) * BASE ** (i + 1))
+                vals.append(Sym((key,)))
         return vals
 
     def ancestors_inputs(self) -> list[set[int]]:
